@@ -448,7 +448,10 @@ def worker_f(payload):
                             break  # a default value travelled: not one of the scenario's arguments
                         rest7 = [r7 for r7 in regs if sc["defs"][r7]["id"] not in entered]
                         want7, _n7 = py_spec(fw, ew, sc, rest7, e7[1], [tuple(x) for x in e7[2]])
-                        if not py_spec.comparable or (steer != "literals" and py_spec.failing_candidates):
+                        # (where a candidate's value condition fails on this call, findings D1 / D23 bend the ranks —
+                        # in the Literal-only stream as well: `(int, Literal[True, 0])` against `(Literal[1], object)`
+                        # below a failing `(Literal[2, 1], Literal[0])` — those calls are C10's, not judged here)
+                        if not py_spec.comparable or py_spec.failing_candidates:
                             break
                         got7 = ["ran", nxt[0]] if nxt is not None else [b["o"][0]]
                         o7 = orc("C07")
